@@ -817,6 +817,14 @@ func atomStrD(v ssa.Value, d int) string {
 		if i := strings.LastIndex(n, "."); i >= 0 {
 			n = n[i+1:]
 		}
+		if n == "" && !x.Call.IsInvoke() {
+			// call of a function value: name it after the field / variable holding it
+			if _, p := fieldPath(x.Call.Value); len(p) > 0 {
+				n = p[len(p)-1]
+			} else if fv, ok := resolveFree(x.Call.Value).(*ssa.FreeVar); ok {
+				n = fv.Name()
+			}
+		}
 		var as []string
 		for _, a := range callArgs(x) {
 			as = append(as, atomStrD(a, d+1))
@@ -882,4 +890,16 @@ func hasFact(fs map[string]bool, substr string, truth bool) bool {
 		}
 	}
 	return false
+}
+
+// cellValue: for a local single-assignment cell (Alloc with exactly one store,
+// e.g. a spilled parameter) returns the stored value; otherwise resolveVal(v).
+func cellValue(v ssa.Value) ssa.Value {
+	v = resolveVal(v)
+	if a, ok := v.(*ssa.Alloc); ok {
+		if sts := storesTo(a); len(sts) == 1 {
+			return resolveVal(sts[0].Val)
+		}
+	}
+	return v
 }
